@@ -1200,6 +1200,10 @@ func (x *ctx) tcpCase(name string, fs []tframe, split int, r *vu.Rng) {
 		req = append(req, w...)
 	}
 	rep, fate := x.c.runMode(modeTCP, req)
+	for try := 0; try < 3 && fate == "" && rep.Fail != ""; try++ { // listen/dial failed (loaded machine): not an observation
+		time.Sleep(500 * time.Millisecond)
+		rep, fate = x.c.runMode(modeTCP, req)
+	}
 	var desc []string
 	for _, f := range fs {
 		desc = append(desc, fmt.Sprintf("%d/%d/%d", f.hdr, f.body, f.hcut))
